@@ -461,6 +461,9 @@ def p1_derived(ctx):
             F = consumer.iter.id
         vadds = [c for c in au.calls(consumer) if isinstance(c.func, ast.Attribute) and c.func.attr == "add"
                  and au.is_self_attr(c.func.value, "feature_vertices") and len(c.args) == 1]
+        vupd = [c for c in au.calls(consumer) if isinstance(c.func, ast.Attribute) and c.func.attr == "update"
+                and au.is_self_attr(c.func.value, "feature_vertices") and len(c.args) == 1
+                and isinstance(c.args[0], (ast.Tuple, ast.List, ast.Set))]
         eadds = [c for c in au.calls(consumer) if isinstance(c.func, ast.Attribute) and c.func.attr == "add"
                  and au.is_self_attr(c.func.value, "feature_edges") and len(c.args) == 1]
         n += 1
@@ -468,8 +471,8 @@ def p1_derived(ctx):
             ctx.fail("C15-P1", ctx.site(FEAT, fn, consumer), "endpoints of a feature edge are not unpacked from mesh.edges[e]",
                      "feature vertices are the endpoints of feature edges")
         else:
-            added = sorted(au.src(c.args[0]) for c in vadds)
-            uncond = all(au.enclosing_stmt(c) in consumer.body for c in vadds + eadds)
+            added = sorted([au.src(c.args[0]) for c in vadds] + [au.src(x) for c in vupd for x in c.args[0].elts])
+            uncond = all(au.enclosing_stmt(c) in consumer.body for c in vadds + vupd + eadds)
             ctx.check(added == sorted(ends) and len(set(ends)) == 2 and uncond and len(eadds) == 1 and H.is_name(eadds[0].args[0], e),
                       "C15-P1", ctx.site(FEAT, fn, consumer),
                       "feature_vertices does not receive exactly the two endpoints of every flagged edge",
@@ -521,41 +524,49 @@ def p1_derived(ctx):
         lp = lfe[0]
         v = lp.target.id
         ok_iter = au.is_self_attr(lp.iter, "feature_vertices")
+        # candidate forms: (enumerate call, target, appended element, [(cond, polarity)], starts empty)
+        forms = []
         init_pos = [i for i, s in enumerate(lp.body) if isinstance(s, ast.Assign) and isinstance(s.targets[0], ast.Subscript)
                     and au.is_self_attr(s.targets[0].value, "local_feat_edges") and H.is_name(s.targets[0].slice, v)
-                    and isinstance(s.value, (ast.List, ast.Call)) and not getattr(s.value, "elts", None)]
-        inner = [(i, s) for i, s in enumerate(lp.body) if isinstance(s, ast.For)]
+                    and isinstance(s.value, (ast.List, ast.Call)) and not getattr(s.value, "elts", None)
+                    and not getattr(s.value, "args", None)]
+        for i, s in enumerate(lp.body):
+            if isinstance(s, ast.Assign) and len(s.targets) == 1 and isinstance(s.targets[0], ast.Subscript) \
+                    and au.is_self_attr(s.targets[0].value, "local_feat_edges") and H.is_name(s.targets[0].slice, v) \
+                    and isinstance(s.value, ast.ListComp) and len(s.value.generators) == 1:
+                g = s.value.generators[0]
+                forms.append((g.iter, g.target, s.value.elt, [(t, True) for t in g.ifs], True))
+            if isinstance(s, ast.For):
+                apps = [c for c in au.calls(s) if isinstance(c.func, ast.Attribute) and c.func.attr == "append"
+                        and isinstance(c.func.value, ast.Subscript) and au.is_self_attr(c.func.value.value, "local_feat_edges")]
+                if len(apps) == 1 and len(apps[0].args) == 1 and H.is_name(apps[0].func.value.slice, v):
+                    cond = [(t, pol) for t, pol, _ in H.path_condition(apps[0], stop=s)]
+                    forms.append((s.iter, s.target, apps[0].args[0], cond, bool(init_pos) and init_pos[0] < i))
         ok = False
-        detail = "inner loop over enumerate(vertex_to_edges(v)) not found"
-        for i, s in inner:
-            if not (isinstance(s.iter, ast.Call) and au.call_tail(s.iter) == "enumerate" and s.iter.args):
+        detail = "no `for i, ev in enumerate(vertex_to_edges(v))` filling local_feat_edges[v]"
+        for it, t, elt, cond, empty in forms:
+            if not (isinstance(it, ast.Call) and au.call_tail(it) == "enumerate" and it.args):
                 continue
             start = 0
-            if len(s.iter.args) > 1:
-                start = au.const(s.iter.args[1])
-            for kw in s.iter.keywords:
+            if len(it.args) > 1:
+                start = au.const(it.args[1])
+            for kw in it.keywords:
                 if kw.arg == "start":
                     start = au.const(kw.value)
-            src_call = s.iter.args[0]
-            t = s.target
+            src_call = it.args[0]
             if not (isinstance(t, ast.Tuple) and len(t.elts) == 2 and all(isinstance(x, ast.Name) for x in t.elts)):
                 continue
             ki, ke = t.elts[0].id, t.elts[1].id
-            apps = [c for c in au.calls(s) if isinstance(c.func, ast.Attribute) and c.func.attr == "append"
-                    and isinstance(c.func.value, ast.Subscript) and au.is_self_attr(c.func.value.value, "local_feat_edges")]
-            if len(apps) != 1:
-                detail = f"{len(apps)} append(s) into local_feat_edges[v]"
-                continue
-            a = apps[0]
-            cond = H.path_condition(a, stop=s)
-            cond_ok = len(cond) == 1 and cond[0][1] is True and isinstance(cond[0][0], ast.Subscript) \
-                and (F is None or H.is_name(cond[0][0].value, F)) and H.is_name(cond[0][0].slice, ke)
+            c0 = cond[0] if len(cond) == 1 else None
+            if c0 and isinstance(c0[0], ast.UnaryOp) and isinstance(c0[0].op, ast.Not):
+                c0 = (c0[0].operand, not c0[1])
+            cond_ok = c0 is not None and c0[1] is True and isinstance(c0[0], ast.Subscript) \
+                and (F is None or H.is_name(c0[0].value, F)) and H.is_name(c0[0].slice, ke)
             ok = (start == 0 and isinstance(src_call, ast.Call) and au.call_tail(src_call) == "vertex_to_edges"
                   and len(src_call.args) == 1 and H.is_name(src_call.args[0], v)
-                  and H.is_name(a.func.value.slice, v) and len(a.args) == 1 and H.is_name(a.args[0], ki)
-                  and cond_ok and bool(init_pos) and init_pos[0] < i and ok_iter)
-            detail = (f"appends `{au.src(a.args[0]) if a.args else ''}` under `{' and '.join(au.src(c[0]) for c in cond)}` "
-                      f"while enumerating `{au.src(s.iter)}`")
+                  and H.is_name(elt, ki) and cond_ok and empty and ok_iter and len(forms) == 1)
+            detail = (f"collects `{au.src(elt)}` under `{' and '.join(('' if pl else 'not ') + au.src(c) for c, pl in cond)}` "
+                      f"while enumerating `{au.src(it)}`" + ("" if empty else ", list not reset first"))
         ctx.check(ok, "C15-P1", ctx.site(FEAT, fn, lp), "local_feat_edges[v] is not the list of positions i of flagged edges in enumerate(vertex_to_edges(v))",
                   f"documented as local indices in the order of mesh.connectivity.vertex_to_edges, for every feature vertex, starting from an empty list; found: {detail}",
                   note="local_feat_edges[v] = [i for i, ev in enumerate(vertex_to_edges(v)) if feature[ev]]")
